@@ -574,6 +574,23 @@ func checkC21(env *kernel.Env) {
 					sqlText = fmt.Sprintf("ALTER TABLE %s CHANGE COLUMN %s %s", m.name, from, nc.ddl())
 					kind = "change-column"
 				}
+				// the column may move in the same clause: converted values travel with it
+				moveTo := "" // "", "FIRST" or the name of the column it goes after
+				if len(m.cols) > 1 && T.Bool(1, 3) {
+					if T.Bool(1, 3) {
+						moveTo = "FIRST"
+						sqlText += " FIRST"
+					} else {
+						var others []string
+						for _, o := range m.cols {
+							if o.name != from {
+								others = append(others, o.name)
+							}
+						}
+						moveTo = others[T.Draw(len(others))]
+						sqlText += " AFTER " + moveTo
+					}
+				}
 				return &aOp{kind: kind, sql: sqlText, apply: func(m *aModel) string {
 					at := m.ci(from)
 					for i, r := range m.rows {
@@ -597,6 +614,20 @@ func checkC21(env *kernel.Env) {
 					}
 					if unique && m.dup(at) {
 						return "duplicate-key"
+					}
+					if moveTo != "" {
+						col := m.cols[at]
+						m.cols = append(m.cols[:at:at], m.cols[at+1:]...)
+						to := 0
+						if moveTo != "FIRST" {
+							to = m.ci(moveTo) + 1
+						}
+						m.cols = append(m.cols[:to:to], append([]*aCol{col}, m.cols[to:]...)...)
+						for i, r := range m.rows {
+							v := r[at]
+							rest := append(append([]any(nil), r[:at]...), r[at+1:]...)
+							m.rows[i] = append(append(append([]any(nil), rest[:to]...), v), rest[to:]...)
+						}
 					}
 					return ""
 				}}
